@@ -170,3 +170,35 @@ def replay_from_json(d):
     print('native log:', log)
     print('violated:', bad)
     return 1 if bad else 0
+
+
+def replay_start_cancelled(named, links=False):
+    """the spawning future is dropped while pre_start is pending: the real start coroutine's locals (lifecycle guard, port set) are dropped by the compiler's
+    drop shim; afterwards nothing of the actor is left"""
+    script = 'pre_start/ok/400/' + ('linkobs' if links else '')
+    out, lines, rc, err = native.run('life', script=script, sup=1, sup_dead=0, named=1 if named else 0, obs=1 if links else 0, cancel_start=1, timeout=30)
+    if rc != 0:
+        raise RuntimeError('native life (cancel_start) failed: ' + err[-300:])
+    log = [x for x in out.get('log', '').split(',') if x]
+    kv = dict(x.split(':', 1) for x in log if ':' in x and not x.startswith(('start:', 'end:', 'supevt')))
+    bad = []
+    if kv.get('start_cancelled') != '1':
+        bad.append('the spawn completed before it could be cancelled: %s' % log)
+        return bad, log
+    if kv.get('final_status') != '6':
+        bad.append('status_stopped: %s' % kv.get('final_status'))
+    if named and kv.get('name_registered') != '0':
+        bad.append('registries_and_groups_released: the name is still registered')
+    if kv.get('pid_registered', '0') != '0':
+        bad.append('registries_and_groups_released: the pid is still registered')
+    if kv.get('sup_children') != '0' or kv.get('has_supervisor') != '0':
+        bad.append('not_linked_to_supervisor: %s children, has_supervisor=%s' % (kv.get('sup_children'), kv.get('has_supervisor')))
+    if links and kv.get('obs_children') != '0':
+        bad.append('not_linked_to_observer')
+    if any(x.startswith('supevt') for x in log):
+        bad.append('no_supervision_event: %s' % [x for x in log if x.startswith('supevt')])
+    if [x for x in log if x.startswith('start:') and x != 'start:pre_start']:
+        bad.append('no_callback_other_than_pre_start')
+    if kv.get('send_refused') != '1':
+        bad.append('a message is still accepted by the cancelled actor')
+    return bad, log
